@@ -69,3 +69,13 @@ for m, q, f in ctx.repo.functions():
         out['%s.%s' % (m.name, q)] = d
 json.dump(out, open(callsigs.STMTGUARDS_REF, 'w'), indent=0, sort_keys=True)
 print(sum(len(v) for v in out.values()), 'call statements in', len(out), 'functions')
+# name-guarded blocks reference
+out = {}
+for m, q, f in ctx.repo.functions():
+    if m.name in ('cencoding', 'speedups'):
+        continue
+    d = callsigs.name_guards(f)
+    if d:
+        out['%s.%s' % (m.name, q)] = d
+json.dump(out, open(callsigs.GUARDNAMES_REF, 'w'), indent=0, sort_keys=True)
+print(sum(len(v) for v in out.values()), 'name-guarded blocks in', len(out), 'functions')
